@@ -54,10 +54,18 @@ Lemma tok_ws s c l : is_ws c = true -> tok s (c :: l) = tok s l.
 Proof. intros H. unfold tok. simpl. now rewrite H. Qed.
 
 (* ---------- names ---------- *)
-Definition good_nameb (n : list Z) : bool :=
-  match n with c :: r => is_name_start c && forallb is_ident_char r && negb (list_eqb n kw_not) | [] => false end.
-Definition nic (l : list Z) : Prop := match l with c :: _ => is_ident_char c = false | [] => True end.
+Definition is_follow (c : Z) : bool := negb (is_ident_char c) && negb (c =? 40).
+Definition nic (l : list Z) : Prop := match l with c :: _ => is_follow c = true | [] => True end.
+Definition nid (l : list Z) : Prop := match l with c :: _ => is_ident_char c = false | [] => True end.
 Definition nd (l : list Z) : Prop := match l with c :: _ => is_digit c = false | [] => True end.
+
+Lemma nic_nid l : nic l -> nid l.
+Proof. destruct l as [|c r]; [auto|]. unfold nic, nid, is_follow. intros H. apply andb_true_iff in H. destruct H as [H _]. now apply negb_true_iff in H. Qed.
+Lemma nic_args l : nic l -> p_args l = Some ([], l).
+Proof.
+  destruct l as [|c r]; [reflexivity|]. unfold nic, is_follow, p_args. intros H. apply andb_true_iff in H. destruct H as [_ H].
+  apply negb_true_iff in H. now rewrite H.
+Qed.
 
 Lemma span_all f a : forall l, forallb f a = true -> match l with c :: _ => f c = false | [] => True end -> span f (a ++ l) = (a, l).
 Proof.
@@ -65,53 +73,80 @@ Proof.
   - destruct l as [|c r]; [reflexivity|]. simpl. now rewrite Hl.
   - simpl in Ha. apply andb_true_iff in Ha. destruct Ha as [Hx Ha]. rewrite Hx, (IH l Ha Hl). reflexivity.
 Qed.
+Lemma span_spec f l : l = fst (span f l) ++ snd (span f l) /\ forallb f (fst (span f l)) = true /\
+  match snd (span f l) with c :: _ => f c = false | [] => True end.
+Proof.
+  induction l as [|c r IH]; [simpl; auto|]. simpl. destruct (f c) eqn:E.
+  - destruct (span f r) as [a b]. simpl in *. destruct IH as (I1 & I2 & I3). repeat split; [now rewrite I1 at 1 | now rewrite E, I2 | exact I3].
+  - simpl. repeat split. exact E.
+Qed.
 
 Lemma name_start_nows c : is_name_start c = true -> is_ws c = false.
 Proof. unfold is_name_start, is_lower, is_ws. lia. Qed.
 Lemma digit_nows c : is_digit c = true -> is_ws c = false.
 Proof. unfold is_digit, is_ws. lia. Qed.
 
-Lemma p_ident_raw c a l : is_name_start c = true -> forallb is_ident_char a = true -> nic l ->
+Lemma p_ident_raw c a l : is_name_start c = true -> forallb is_ident_char a = true -> nid l ->
   p_ident (c :: a ++ l) = Some (c :: a, l).
 Proof.
   intros Hc Ha Hl. unfold p_ident. simpl. rewrite (name_start_nows c Hc), Hc.
   rewrite (span_all is_ident_char a l Ha Hl). reflexivity.
 Qed.
 
-Lemma good_name_inv n : good_nameb n = true ->
-  exists c a, n = c :: a /\ is_name_start c = true /\ forallb is_ident_char a = true /\ list_eqb n kw_not = false.
+(* an argument list that scans to its end scans the same way in front of anything *)
+Lemma scan_app l : forall d i e x, scan d i e l = Some (x, []) -> x = l /\ forall rest, scan d i e (l ++ rest) = Some (l, rest).
 Proof.
-  destruct n as [|c a]; simpl; [discriminate|]. intros H.
-  apply andb_true_iff in H. destruct H as [H H3]. apply andb_true_iff in H. destruct H as [H1 H2].
-  exists c, a. repeat split; try assumption. now apply negb_true_iff in H3.
+  induction l as [|c r IH]; intros d i e x H; [discriminate|].
+  assert (K : forall d' i' e', consr c (scan d' i' e' r) = Some (x, []) -> x = c :: r /\ forall rest, consr c (scan d' i' e' (r ++ rest)) = Some (c :: r, rest)).
+  { intros d' i' e' Hc. unfold consr in Hc. destruct (scan d' i' e' r) as [[x' y']|] eqn:E; [|discriminate]. inversion Hc; subst.
+    destruct (IH d' i' e' x' E) as [-> Hr]. split; [reflexivity|]. intros rest. now rewrite Hr. }
+  cbn [scan app] in *. destruct i.
+  - destruct e; [now apply K|]. destruct (c =? 92); [now apply K|]. destruct (c =? 34); now apply K.
+  - destruct (c =? 34); [now apply K|]. destruct (c =? 40); [now apply K|]. destruct (c =? 41); [|now apply K].
+    destruct d as [|[|d']]; [discriminate | | now apply K]. inversion H; subst. split; [reflexivity|]. intros rest. reflexivity.
 Qed.
 
-Lemma p_ident_name n l : good_nameb n = true -> nic l -> p_ident (n ++ l) = Some (n, l).
+Lemma good_name_inv n : good_nameb n = true ->
+  exists c i a, n = c :: i ++ a /\ is_name_start c = true /\ forallb is_ident_char i = true /\ list_eqb (c :: i) kw_not = false /\
+                nid a /\ (a = [] \/ exists b, a = 40 :: b /\ forall rest, scan 1 false false (b ++ rest) = Some (b, rest)).
 Proof.
-  intros H Hl. destruct (good_name_inv n H) as (c & a & -> & Hc & Ha & _). now apply p_ident_raw.
+  destruct n as [|c r]; [discriminate|]. cbn [good_nameb]. intros H. apply andb_true_iff in H. destruct H as [Hc H].
+  destruct (span_spec is_ident_char r) as (S1 & S2 & S3). destruct (span is_ident_char r) as [i a]. cbn [fst snd] in *.
+  apply andb_true_iff in H. destruct H as [Hn Ha]. apply negb_true_iff in Hn.
+  exists c, i, a. split; [now rewrite S1 at 1|]. repeat split; try assumption.
+  destruct a as [|x b]; [now left|]. right. cbn [args_okb] in Ha. apply andb_true_iff in Ha. destruct Ha as [Hx Hs].
+  apply Z.eqb_eq in Hx. subst x. exists b. split; [reflexivity|].
+  destruct (scan 1 false false b) as [[x y]|] eqn:E; [|discriminate]. destruct y; [|discriminate].
+  destruct (scan_app b 1%nat false false x E) as [_ Hr]. exact Hr.
 Qed.
-Lemma p_ident_blank l : p_ident (32 :: l) = p_ident l.
-Proof. reflexivity. Qed.
 
 Lemma p_name_spec n l : good_nameb n = true -> nic l -> p_name (n ++ l) = Some (n, l).
 Proof.
-  intros H Hl. unfold p_name, bnd. rewrite (p_ident_name n l H Hl).
-  destruct (good_name_inv n H) as (c & a & _ & _ & _ & E). now rewrite E.
+  intros H Hl. destruct (good_name_inv n H) as (c & i & a & -> & Hc & Hi & Hk & Ha & Hargs).
+  unfold p_name, bnd. cbn [app]. rewrite <- app_assoc.
+  rewrite (p_ident_raw c i (a ++ l) Hc Hi); [|destruct a; [now apply nic_nid | exact Ha]].
+  rewrite Hk. destruct Hargs as [-> | (b & -> & Hs)].
+  - cbn [app]. rewrite (nic_args l Hl). unfold ret. now rewrite app_nil_r.
+  - cbn [app p_args]. change (40 =? 40) with true. cbv iota. rewrite Hs. reflexivity.
 Qed.
+Lemma p_ident_blank l : p_ident (32 :: l) = p_ident l.
+Proof. reflexivity. Qed.
 Lemma p_name_blank l : p_name (32 :: l) = p_name l.
 Proof. reflexivity. Qed.
 
+Lemma good_name_hd n : good_nameb n = true -> exists c r, n = c :: r /\ is_name_start c = true.
+Proof. intros H. destruct (good_name_inv n H) as (c & i & a & -> & Hc & _). exists c, (i ++ a). auto. Qed.
+
 Lemma good_name_nows n l : good_nameb n = true -> nows (n ++ l).
-Proof. intros H. destruct (good_name_inv n H) as (c & a & -> & Hc & _). simpl. now apply name_start_nows. Qed.
+Proof. intros H. destruct (good_name_hd n H) as (c & a & -> & Hc). simpl. now apply name_start_nows. Qed.
 
 Lemma tok_none_name a s n l : good_nameb n = true -> is_name_start a = false -> tok (a :: s) (n ++ l) = None.
 Proof.
-  intros H Ha. destruct (good_name_inv n H) as (c & r & -> & Hc & _). simpl.
+  intros H Ha. destruct (good_name_hd n H) as (c & r & -> & Hc). simpl.
   apply tok_none_hd; [now apply name_start_nows | congruence].
 Qed.
 
 (* ---------- literals ---------- *)
-
 Lemma s_not_eq : s_not = kw_not ++ [32].
 Proof. reflexivity. Qed.
 
@@ -124,8 +159,10 @@ Proof.
     cbn [app] in E. rewrite E. clear E.
     change (list_eqb [110; 111; 116] kw_not) with true. cbv beta iota.
     rewrite p_name_blank, (p_name_spec _ l H Hl). reflexivity.
-  - cbn [app]. unfold p_lit, bnd. rewrite (p_ident_name _ l H Hl).
-    destruct (good_name_inv _ H) as (c & a & _ & _ & _ & E). now rewrite E.
+  - cbn [app]. pose proof (p_name_spec _ l H Hl) as E. unfold p_name, bnd in E. unfold p_lit, bnd.
+    destruct (p_ident (name_of nm (Z.abs z) ++ l)) as [[n r]|]; [|discriminate].
+    destruct (list_eqb n kw_not); [discriminate|]. destruct (p_args r) as [[a r']|]; [|discriminate].
+    unfold ret in *. inversion E; subst. reflexivity.
 Qed.
 Lemma p_lit_blank l : p_lit (32 :: l) = p_lit l.
 Proof. reflexivity. Qed.
